@@ -584,3 +584,130 @@ func Fill(seed uint64, n int, alphabet string) string {
 	}
 	return string(b)
 }
+
+// Manual lets a sub-check drive its own enumeration (for checks that relate many elements
+// of a space to one another, such as partition comparisons).
+type Manual[C any] struct {
+	r    *recorder
+	s    *Sub[C]
+	t    *testing.T
+	stop bool
+}
+
+// Observe records one explored element; nontrivial per the sub-check's stated rule.
+func (m *Manual[C]) Observe(c C) { observe(m.r, m.s, c, false) }
+
+// Eval records the element and runs the sub-check's oracle on it; false means stop.
+func (m *Manual[C]) Eval(c C) bool {
+	observe(m.r, m.s, c, false)
+	if err := SafeCheck(m.s, c); err != nil {
+		m.Fail(c, err)
+		return false
+	}
+	return true
+}
+
+// Fail reports a violation witnessed by c (c must fail under the registered Check too, so
+// that the replay file reproduces it).
+func (m *Manual[C]) Fail(c C, err error) {
+	m.stop = true
+	if isHarness(err) {
+		fmt.Printf("VERIF-HARNESS-ERROR sub=%s %v\n", m.s.Name, err)
+		m.t.Errorf("%v", err)
+		return
+	}
+	m.r.mu.Lock()
+	m.r.failed++
+	m.r.mu.Unlock()
+	writeCase(replayPath(m.s.Name), m.s.Name, c, err.Error())
+	m.t.Errorf("property violated: %v", err)
+}
+
+func (m *Manual[C]) Stopped() bool { return m.stop }
+
+// Mine reports whether work unit i belongs to this process's shard.
+func Mine(i int) bool { return i%Shards() == Shard() }
+
+// RunManual runs body with a Manual; the space is recorded as enumerated (complete or
+// sampled) if body finishes without a failure.
+func RunManual[C any](t *testing.T, s *Sub[C], space string, complete bool, body func(m *Manual[C])) {
+	r := begin(s.Name, "enum")
+	defer end(r)
+	m := &Manual[C]{r: r, s: s, t: t}
+	body(m)
+	r.mu.Lock()
+	if !m.stop {
+		r.spaces = append(r.spaces, space)
+		r.exhaustive = complete
+	}
+	r.mu.Unlock()
+}
+
+// SeqSpec describes a sequence compactly: a literal, or filler expanded from a 64-bit value.
+type SeqSpec struct {
+	Lit   string `json:"lit,omitempty"`
+	Fill  uint64 `json:"fill,omitempty"`
+	N     int    `json:"n,omitempty"`
+	Alpha string `json:"alpha,omitempty"`
+}
+
+func (s SeqSpec) String() string {
+	if s.N > 0 && s.Alpha != "" {
+		return s.Lit + Fill(s.Fill, s.N, s.Alpha)
+	}
+	return s.Lit
+}
+
+// DrawSeq draws a sequence over alpha with a size-biased length in [lo, hi]: most are short
+// (letters drawn one by one, so they shrink well), a tail is long filler.
+func DrawSeq(t *rapid.T, name, alpha string, lo, hi int) SeqSpec {
+	small := min(hi, max(lo, 40))
+	mid := min(hi, max(lo, 600))
+	var n int
+	switch cls := rapid.IntRange(0, 19).Draw(t, name+"_size"); {
+	case cls == 0 && hi > mid:
+		n = rapid.IntRange(mid, hi).Draw(t, name+"_len_big")
+	case cls <= 5 && mid > small:
+		n = rapid.IntRange(small, mid).Draw(t, name+"_len_mid")
+	default:
+		n = rapid.IntRange(lo, small).Draw(t, name+"_len")
+	}
+	if n > 48 {
+		return SeqSpec{Fill: rapid.Uint64().Draw(t, name+"_fill"), N: n, Alpha: alpha}
+	}
+	b := make([]byte, n)
+	for i := range b {
+		b[i] = alpha[rapid.IntRange(0, len(alpha)-1).Draw(t, name+"_letter")]
+	}
+	return SeqSpec{Lit: string(b)}
+}
+
+// EachString calls yield for every string over alpha of length lo..hi, in length-then-
+// lexicographic order; it stops when yield returns false and reports whether it finished.
+func EachString(alpha string, lo, hi int, yield func(s string) bool) bool {
+	for n := lo; n <= hi; n++ {
+		idx := make([]int, n)
+		buf := make([]byte, n)
+		for {
+			for i := range buf {
+				buf[i] = alpha[idx[i]]
+			}
+			if !yield(string(buf)) {
+				return false
+			}
+			p := n - 1
+			for p >= 0 {
+				idx[p]++
+				if idx[p] < len(alpha) {
+					break
+				}
+				idx[p] = 0
+				p--
+			}
+			if p < 0 {
+				break
+			}
+		}
+	}
+	return true
+}
